@@ -1424,7 +1424,8 @@ def run_sequence(kind, config_name, seed, seq, ops, stop_at_first=True, skip_sig
                         sig = "twin:" + label.split("/")[0]
                     problems.append((idx, label, "proxy gives %r, twin gives %r" % (res_p, res_t), sig))
                 if after != snap(tw.twin):
-                    problems.append((idx, label, "target state %r differs from twin state %r" % (after, snap(tw.twin))))
+                    state_sig = ("twin:failing-read-evaluated-twice",) if kind == "counting" else ()
+                    problems.append((idx, label, "target state %r differs from twin state %r" % (after, snap(tw.twin))) + state_sig)
             if [p_ for p_ in problems if len(p_) < 4 or p_[3] not in skip_signatures] and stop_at_first:
                 break
             if stop_after:
